@@ -26,6 +26,36 @@ CLAIMED = {
                 note="Trusted: z3 nlsat, vf/symx.py, the transcribed SDK AngleMatrix reference, 'every rotation has Euler angles'. Rounding error, the "
                      "quantitative gimbal tolerance and the Cython/C++ twins are outside.",
                 technique="symbolic execution of the real code on z3 Real terms (operator overloading + DFS over branches); validity queries in QF_NRA; models replayed with floats"),
+    "C07": dict(engine="chx", category="model_checking",
+                text="Every API-built pre-state of one subject entity (5 attachment situations x class x name x key spelling, with a colliding bystander) "
+                     "followed by one (quick) or two (thorough) of 22 public operations, renames observed through search(), iteration while mutating and "
+                     "VMF.parse: the path tree is exhausted and by_class/by_target/search() are compared with a scan of the map after every step. "
+                     "Names/classes are solver-chosen indices into small lists (the indexes are real dicts), so this is exhaustion of a finite product.",
+                note="Trusted: CrossHair, z3, vf/chx.py, stubs (intern identity, CopySet frozenset). Histories longer than two operations, double add and "
+                     "direct dict writes are outside.",
+                technique=_E1 + "; operation codes and names are symbolic indices"),
+    "C08": dict(engine="symx+chx", category="model_checking",
+                text="IDMan.get_id/discard/remove are proved as an inductive step from an arbitrary valid state for ALL integers (z3 Int, |used| <= 3/6): "
+                     "fresh positive id, exact set update, invariant kept, loop bound. Object level: every prefix of <= 2/3 public operations (11 kinds, "
+                     "desired ids by index) followed by a fixed recycle probe, parse with colliding ids, and EntityFixup index histories are exhausted "
+                     "symbolically; per-kind uniqueness and positivity are asserted after every step.",
+                note="Trusted: z3, vf/symx.py (SymZ/SymSet), CrossHair. NullIDMan maps exempt; longer histories outside; ids at object level come from a finite list.",
+                technique="inductive step on z3 Int terms through the real IDMan code (operator overloading + DFS) and bounded symbolic execution of API histories (CrossHair)"),
+    "C15": dict(engine="symx+chx", category="other",
+                text="Per writable uncompressed pixel format the real save_*/load_* run on bit-vector terms and z3 decides load(save(p)) == documented "
+                     "quantisation, idempotence and byte range for all 2^64 values of a 2x1 image; scale_down likewise for all texel values. Frame access "
+                     "bounds, sheet sequences (boundary counts) and VTF.save/read structure (sizes, frames, depth, cubemaps, versions by index; concrete "
+                     "pixels) are exhausted under CrossHair. Three open known findings (RGB565/BGR565 channel swap, mipmap_count == 0 when a side is 1).",
+                note="Trusted: z3 BV, the quantisation table in vf/props/c15.py, memoryview->identity stub, CrossHair. DXT/ATI formats, the Cython codec and larger images are outside.",
+                technique="real codec code executed on z3 BitVec(32) terms with no-overflow side obligations (validity queries); CrossHair for access bounds and file structure"),
+    "C20": dict(engine="chx", category="model_checking",
+                text="Hammer command sequences (fixed-width fields: every ASCII string at lengths 0,1,2,W-1,W with all characters symbolic; whole files), the "
+                     "scenes.image container v2/v3 and binary choreo scenes (all 19 event kinds, optional blocks, symbolic pool strings) are written and "
+                     "re-read under symbolic execution and compared field by field, second write byte-identical. Choreo text, soundscripts, VMT, PCF and SMD "
+                     "are NOT covered.",
+                note="Trusted: CrossHair, z3, pure-Python struct/BytesIO models (vf/stubs/binio.py, self-tested against the real ones each run). Floats concrete; "
+                     "LZMA/CRC on concrete data only.",
+                technique=_E1),
 }
 _TODO = "check not built yet in this round (planned: see DESIGN.md section 3)"
 NOT_APPLICABLE = {f"C{i:02d}": _TODO for i in range(1, 21) if f"C{i:02d}" not in CLAIMED}
